@@ -27,7 +27,15 @@ META = dict(
                  'bound.contains is a fixed function of the point'])
 
 
+def _resume_jobs():
+    from vlib.runner import Job
+    return [Job('harness.sampler_file:write_resume',
+                dict(m=[1] * 12, explored=e, end_exp=[1] * 12, props=['C01']),
+                pkg_key='sampler') for e in (True, False)]
+
+
 def jobs(tier):
     return (common.add_samples_jobs(tier, ['C01']) +
             common.add_bound_jobs(tier, ['C01']) +
-            common.run_jobs(tier, ['C01'], which=('end', 'bound', 'empty')))
+            common.run_jobs(tier, ['C01'], which=('end', 'bound', 'empty')) +
+            _resume_jobs())
